@@ -375,16 +375,15 @@ def run(ctx):
     # spec -> code
     behs = ctx.simulate("DeferredCancelSim", "DeferredCancelSim.cfg", num=ctx.pick(60, 2000), depth=14)
     behs = behs[:ctx.pick(600, 20000)]
-    drift = 0
+    drift = []
     for b in behs:
         ops = [(h["e"], h["x"]) for h in b["hist"]]
         t = run_history(b["cfg"], ops)
         norm = lambda e: (e["e"], e["x"], e["y"], e["exc"], sorted(map(tuple, e["obs"])))
         if [norm(e) for e in t["ev"]] != [norm(h) for h in b["hist"]]:
-            drift += 1
+            drift.append(len(traces))
         traces.append(t)
     ctx.extra["spec_behaviours_replayed"] = len(behs)
-    ctx.extra["spec_behaviours_not_reproduced"] = drift   # each of these is also rejected by TLC below
     ctx.note_traces(traces)
     ctx.log("recorded %d real executions (%d exhaustive depth %d, %d random, %d from TLC behaviours)" % (
         len(traces), nex, depth, nrand, len(behs)))
@@ -392,6 +391,10 @@ def run(ctx):
     report(ctx, traces, rej, "run")
     ctx.extra["rejected_executions"] = len(rej)
     bad = {x.idx for x in rej}
+    # predicted observables that the real code did not reproduce: either rejected by TLC (reported above) or
+    # differing only in a choice the spec leaves open (does cancel() let a raising canceller's exception escape)
+    ctx.extra["spec_behaviours_not_reproduced_and_rejected"] = sum(1 for i in drift if i in bad)
+    ctx.extra["spec_behaviours_differing_only_in_free_choice"] = sum(1 for i in drift if i not in bad)
     good = [t for i, t in enumerate(traces) if i not in bad and len(t["ev"]) >= 5]
     ctx.selftest_rejects("DeferredCancelTrace", good[-300:], mutate, n=24)
 
